@@ -29,14 +29,16 @@ type verifKMS struct {
 	signErr  bool
 
 	// versions of one key, and paging
-	versions  []*kmspb.CryptoKeyVersion
-	destroyed []string
-	listCalls int
-	maxCalls  int
-	shortPage bool // the service may legally return fewer entries than requested on a non-final page
-	polls     int
-	keys      []*kmspb.CryptoKey
-	keyCalls  int
+	versions      []*kmspb.CryptoKeyVersion
+	destroyed     []string
+	listCalls     int
+	maxCalls      int
+	shortPage     bool // the service may legally return fewer entries than requested on a non-final page
+	polls         int
+	lastPollName  string
+	lastPollState kmspb.CryptoKeyVersion_CryptoKeyVersionState
+	keys          []*kmspb.CryptoKey
+	keyCalls      int
 }
 
 func (k *verifKMS) AsymmetricSign(ctx context.Context, in *kmspb.AsymmetricSignRequest, opts ...grpc.CallOption) (*kmspb.AsymmetricSignResponse, error) {
@@ -92,6 +94,7 @@ func (k *verifKMS) GetCryptoKeyVersion(ctx context.Context, in *kmspb.GetCryptoK
 		return nil, verifErrSvc
 	}
 	st := kmspb.CryptoKeyVersion_CryptoKeyVersionState(verifNondetU8("poll_state") % 6)
+	k.lastPollName, k.lastPollState = in.Name, st
 	return &kmspb.CryptoKeyVersion{Name: in.Name, State: st}, nil
 }
 
@@ -202,14 +205,14 @@ func verifC20Wipeout(n int, symbolicStates, shortPages bool) {
 	verifReach("end")
 }
 
-func VerifC20Wipeout0()     { verifC20Wipeout(0, false, false) }
-func VerifC20Wipeout1()     { verifC20Wipeout(1, false, false) }
-func VerifC20Wipeout99()    { verifC20Wipeout(99, false, false) }
-func VerifC20Wipeout100()   { verifC20Wipeout(100, false, false) }
-func VerifC20Wipeout101()   { verifC20Wipeout(101, false, false) }
-func VerifC20Wipeout200()   { verifC20Wipeout(200, false, false) }
+func VerifC20Wipeout0()      { verifC20Wipeout(0, false, false) }
+func VerifC20Wipeout1()      { verifC20Wipeout(1, false, false) }
+func VerifC20Wipeout99()     { verifC20Wipeout(99, false, false) }
+func VerifC20Wipeout100()    { verifC20Wipeout(100, false, false) }
+func VerifC20Wipeout101()    { verifC20Wipeout(101, false, false) }
+func VerifC20Wipeout200()    { verifC20Wipeout(200, false, false) }
 func VerifC20WipeoutStates() { verifC20Wipeout(3, true, false) }
-func VerifC20WipeoutShort() { verifC20Wipeout(3, false, true) }
+func VerifC20WipeoutShort()  { verifC20Wipeout(3, false, true) }
 
 // bootstrap selection: an enabled version if one exists, else a pending one, else "no versions".
 func verifC20Select(n int, symbolicStates, shortPages bool) {
@@ -266,6 +269,29 @@ func VerifC20Poll() {
 	if err == nil {
 		verifReach("enabled")
 		verifAssert(name == "kv", "polling returns the polled version's name")
+		verifAssert(svc.polls > 0 && svc.lastPollName == "kv" && svc.lastPollState == kmspb.CryptoKeyVersion_ENABLED, "polling returns only once the service reported the version enabled")
+	}
+	verifReach("end")
+}
+
+// waitForKeyGen (bootstrap): the name it returns is a version the service listed as enabled, or one
+// it polled until the service reported it enabled; never a version that is still being generated.
+func VerifC20WaitKeyGen() {
+	verifUnwindCut(4)
+	svc := &verifKMS{versions: verifVersions(3, true)}
+	svc.maxCalls = 3
+	m := &Manager{KeyClient: svc}
+	name, err := m.waitForKeyGen(context.Background(), "key")
+	if err == nil {
+		verifReach("returned")
+		listedEnabled := false
+		for _, v := range svc.versions {
+			if v.Name == name && v.State == kmspb.CryptoKeyVersion_ENABLED {
+				listedEnabled = true
+			}
+		}
+		polledEnabled := svc.polls > 0 && svc.lastPollName == name && svc.lastPollState == kmspb.CryptoKeyVersion_ENABLED
+		verifAssert(listedEnabled || polledEnabled, "bootstrap returns a key version only once it is enabled")
 	}
 	verifReach("end")
 }
